@@ -256,6 +256,46 @@ def run(ctx):  # noqa: C901, PLR0912, PLR0915
     ctx.ob('C15.R2', 'queued time is the accumulated one', ok, 'the datagram is queued with the accumulated send time',
            fi=fi)
 
+    # interval evaluation of the whole function for both parameter sets (sound for every outcome of the draws)
+    mod = repo.module(NT)
+    psets = {}
+    fields = []
+    pc = repo.cls(f'{NT}._UdpRepeatParams')
+    for st in pc.node.body:
+        if isinstance(st, ast.AnnAssign) and isinstance(st.target, ast.Name):
+            fields.append(st.target.id)
+    for n in mod.tree.body:
+        if isinstance(n, ast.Assign) and isinstance(n.value, ast.Call) and call_name(n.value) == '_UdpRepeatParams':
+            vals = [a.value for a in n.value.args if isinstance(a, ast.Constant)]
+            if len(vals) == len(fields):
+                psets[unparse(n.targets[0])] = dict(zip(fields, vals))
+    ctx.floor('C15.R2', len(psets), 2, 'parameter sets for the interval evaluation')
+    for pname, pvals in sorted(psets.items()):
+        try:
+            sends = interval_eval(fn, param, pvals)
+        except AnalysisError as ex:
+            ctx.ob('C15.R2', f'interval evaluation {pname}', False, f'cannot evaluate the envelope: {ex}', fi=fi)
+            continue
+        eps = 1e-9
+        first = sends[0]
+        gaps = [(sends[i][0] - sends[i - 1][1], sends[i][1] - sends[i - 1][0]) for i in range(1, len(sends))]
+        # gap_i interval is not simply the difference of absolute intervals (they are correlated); the evaluator therefore
+        # also returns the gap interval it added: sends[i][2]
+        gl = [s_[2] for s_ in sends[1:]]
+        ok = len(sends) == 1 + pvals['repeat']
+        ok = ok and first[0] >= -eps and first[1] <= pvals['max_initial_delay_ms'] / 1000 + eps
+        if gl:
+            ok = ok and gl[0][0] >= pvals['min_delay_ms'] / 1000 - eps and gl[0][1] <= pvals['max_delay_ms'] / 1000 + eps
+            for i in range(1, len(gl)):
+                ok = ok and gl[i][1] <= pvals['upper_delay_ms'] / 1000 + eps
+                ok = ok and gl[i][1] <= 2 * gl[i - 1][1] + eps and gl[i][0] >= min(2 * gl[i - 1][0], pvals['upper_delay_ms'] / 1000) - eps
+        ctx.ob('C15.R2', f'interval envelope {pname}', ok,
+               f'{pname}: for every outcome of the two draws: {1 + pvals["repeat"]} datagrams, first after at most '
+               f'{pvals["max_initial_delay_ms"]} ms, first gap in [{pvals["min_delay_ms"]}, {pvals["max_delay_ms"]}] ms, every '
+               f'later gap <= {pvals["upper_delay_ms"]} ms and at most twice the previous one' if ok else
+               f'{pname}: the computed send times leave the envelope: first {first[:2]}, gaps {gl}', fi=fi,
+               witness={'first_send_offset_s': first[:2], 'gaps_s': gl})
+
     # ------------------------------------------------------------------ R3
     in_loop = [n for n, c in puts if any(l is loop for l in n.loops)]
     before = [n for n, c in puts if not n.loops]
@@ -328,6 +368,93 @@ def run(ctx):  # noqa: C901, PLR0912, PLR0915
            where=NT, witness=direct)
 
 
+def interval_eval(fn, param, pvals):
+    """Interval abstract interpretation of _repeated_enqueue_msg.  Values are (lo, hi) floats; time.time() is the
+    origin [0, 0].  Returns the list of (lo, hi, gap interval) of the send times handed to the queue."""
+    env = {}
+    sends = []
+    last_gap = [None]
+
+    def ev(e):  # noqa: C901, PLR0911
+        if isinstance(e, ast.Constant) and isinstance(e.value, (int, float)):
+            return (float(e.value), float(e.value))
+        if isinstance(e, ast.Name):
+            if e.id in env:
+                return env[e.id]
+            raise AnalysisError(f'interval: unbound name {e.id}')
+        if isinstance(e, ast.Attribute) and isinstance(e.value, ast.Name) and e.value.id == param and e.attr in pvals:
+            return (float(pvals[e.attr]), float(pvals[e.attr]))
+        if isinstance(e, ast.Call):
+            full = unparse(e.func)
+            if full == 'time.time':
+                return (0.0, 0.0)
+            if full == 'random.randint':
+                a, b = ev(e.args[0]), ev(e.args[1])
+                return (a[0], b[1])
+            if full == 'random.randrange':
+                a, b = ev(e.args[0]), ev(e.args[1])
+                return (a[0], b[1])  # upper bound exclusive: over-approximated by the closed interval
+            if full in ('min', 'max'):
+                vs = [ev(a) for a in e.args]
+                f = min if full == 'min' else max
+                return (f(v[0] for v in vs), f(v[1] for v in vs))
+            raise AnalysisError(f'interval: call {full} not modelled')
+        if isinstance(e, ast.BinOp):
+            l, r = ev(e.left), ev(e.right)
+            if isinstance(e.op, ast.Add):
+                return (l[0] + r[0], l[1] + r[1])
+            if isinstance(e.op, ast.Sub):
+                return (l[0] - r[1], l[1] - r[0])
+            if isinstance(e.op, ast.Mult):
+                c = [l[0] * r[0], l[0] * r[1], l[1] * r[0], l[1] * r[1]]
+                return (min(c), max(c))
+            if isinstance(e.op, ast.Div):
+                if r[0] <= 0 <= r[1]:
+                    raise AnalysisError('interval: division by an interval containing 0')
+                c = [l[0] / r[0], l[0] / r[1], l[1] / r[0], l[1] / r[1]]
+                return (min(c), max(c))
+        raise AnalysisError(f'interval: expression {unparse(e)[:50]} not modelled')
+
+    def run(stmts):
+        for st in stmts:
+            if isinstance(st, ast.Expr) and isinstance(st.value, ast.Constant):
+                continue
+            if isinstance(st, ast.If):
+                if 'is_set()' in unparse(st.test):
+                    continue  # shutdown guard: drops the message before anything is queued
+                raise AnalysisError(f'interval: condition {unparse(st.test)[:40]} not modelled')
+            if isinstance(st, ast.Assign) and len(st.targets) == 1 and isinstance(st.targets[0], ast.Name):
+                env[st.targets[0].id] = ev(st.value)
+                continue
+            if isinstance(st, ast.AugAssign) and isinstance(st.target, ast.Name) and isinstance(st.op, ast.Add):
+                inc = ev(st.value)
+                cur = env[st.target.id]
+                env[st.target.id] = (cur[0] + inc[0], cur[1] + inc[1])
+                last_gap[0] = inc
+                continue
+            if isinstance(st, ast.Expr) and isinstance(st.value, ast.Call) and call_name(st.value) == 'put':
+                em = [x for x in ast.walk(st.value) if isinstance(x, ast.Call) and call_name(x) == '_EnqueuedMessage']
+                if not em:
+                    raise AnalysisError('interval: put without _EnqueuedMessage')
+                t = ev(em[0].args[0])
+                sends.append((t[0], t[1], last_gap[0]))
+                continue
+            if isinstance(st, ast.For) and isinstance(st.iter, ast.Call) and call_name(st.iter) == 'range' and len(st.iter.args) == 1:
+                n = ev(st.iter.args[0])
+                if n[0] != n[1]:
+                    raise AnalysisError('interval: loop count is not a constant')
+                for i in range(int(n[0])):
+                    if isinstance(st.target, ast.Name):
+                        env[st.target.id] = (float(i), float(i))
+                    run(st.body)
+                continue
+            if isinstance(st, ast.Expr) and isinstance(st.value, ast.Call) and 'logger' in unparse(st.value.func):
+                continue
+            raise AnalysisError(f'interval: statement {unparse(st)[:50]} not modelled')
+    run(fn.body)
+    return sends
+
+
 def _inside(node, container):
     cur = getattr(node, '_parent', None)
     while cur is not None:
@@ -352,6 +479,9 @@ SEEDS = [
           "            delta_t = min(delta_t * 2, delay_params.upper_delay_ms / 1000.0)\n            next_send += delta_t\n            self._send_queue.put(self._EnqueuedMessage(next_send, msg, i + 2))")),
     seed('first gap window uses initial delay as upper bound', 'C15.R2',
          (_N, "random.randrange(delay_params.min_delay_ms, delay_params.max_delay_ms)", "random.randrange(delay_params.min_delay_ms, delay_params.max_initial_delay_ms)")),
+    seed('cap ten times too large', 'C15.R2', (_N, "delay_params.upper_delay_ms / 1000.0)", "delay_params.upper_delay_ms / 100.0)")),
+    seed('first gap drawn from twice the window', 'C15.R2',
+         (_N, "random.randrange(delay_params.min_delay_ms, delay_params.max_delay_ms) / 1000.0", "random.randrange(delay_params.min_delay_ms, delay_params.max_delay_ms) / 500.0")),
     seed('one repetition too many', 'C15.R3', (_N, "for i in range(delay_params.repeat):", "for i in range(delay_params.repeat + 1):")),
     seed('first datagram only for multicast', 'C15.R3',
          (_N, "        self._send_queue.put(self._EnqueuedMessage(next_send, msg, 1))\n", "        if delay_params.repeat > 2:\n            self._send_queue.put(self._EnqueuedMessage(next_send, msg, 1))\n")),
